@@ -354,6 +354,10 @@ def oracle_policy(c, obs):
         else:
             now = o[1]
             res = ob["res"]
+            # peek() announces what the next pop returns (policies whose peek has no side effect and no clock)
+            if kind in ("fifo", "lifo", "prio") and p["kind"] != "balk" and idx > 0 and "peek" in obs[idx - 1] \
+                    and obs[idx - 1]["peek"] != res:
+                fails.append(dict(clause="peek returns the item the next pop returns", step=idx, peek=obs[idx - 1]["peek"], res=res))
             gone = [h for h in held if h[1]["id"] not in ob["snap"][1]]
             expired = [h for h in gone if h[1]["id"] != res]
             exp += len(expired)
